@@ -165,3 +165,22 @@ PROPS["C04"] = {
     "assumptions": COMMON_ASSUME + ["test profile (overflow checks on) is what panics are judged in"],
     "design_ref": "DESIGN.md §7 C04",
 }
+
+PROPS["C10"] = {
+    "title": "Reassembly is independent of fragmentation",
+    "module": "Theorems.C10",
+    "theorems": [
+        "Amqp.Reasm.reasm_once",
+        "Amqp.Reasm.single_frame",
+        "Amqp.Reasm.abort_clean",
+        "Amqp.Reasm.contradiction_is_error",
+        "Amqp.Reasm.run_middle",
+    ],
+    "harness": ["reasm"],
+    "gen_files": [],
+    "technique": "Lean 4 proof by induction over the continuation frames of a delivery (one-slot reassembly state machine) + engine-level differential runs of a real Receiver against a scripted sender cutting messages at arbitrary offsets",
+    "level_text": "Machine-checked for every payload, every partition into n >= 1 pieces (empty pieces, cuts anywhere) and every consistent choice of repeated/omitted delivery-id, tag and format on continuation frames: nothing is delivered before the last frame, exactly one delivery at the last frame with the first frame's fields and the concatenated payload; aborted deliveries leave no state; a contradicting delivery-id is an error, never a spliced message. The hand-written model of ReceiverInner / IncompleteTransfer is tied to the implementation by engine-level runs through the public API (Receiver::recv over an in-memory connection, frames written by a scripted peer, second link interleaved), and the property is evaluated on what the application received.",
+    "level_note": "Trusted: Lean kernel; the hand-written model Amqp/Reasm.lean (no generated part: the code is field-merging logic, tied by the differential runs); harness + scripted peer. Decoding of the reassembled payload is C03 (decoding from a list of chunks = decoding from their concatenation is assumed of util::IntoReader, exercised by every run). Frames of other links are routed by handle (C11); here a second link is interleaved in the runs.",
+    "assumptions": COMMON_ASSUME + ["tokio mpsc between session task and link is FIFO"],
+    "design_ref": "DESIGN.md §7 C10",
+}
